@@ -78,6 +78,13 @@ def run_one(patch: str, with_tests: bool, tier: str, props_override: list[str] |
                         data = json.load(open(os.path.join(VERIF, rp)))
                         data["note"] = f"shrunk case that kills mutants/{prop}/{name}.patch"
                         json.dump(data, open(dst, "w"), indent=1, sort_keys=True)
+                        # a regression case must hold on the real tree (guards against an invalid shrunk case)
+                        envr = dict(os.environ)
+                        envr.pop("VERIF_REPO_SRC", None)
+                        envr.pop("PYTHONPATH", None)
+                        rr = subprocess.run([os.path.join(VERIF, "check"), pr, "--replay", dst], cwd=VERIF, env=envr, capture_output=True, text=True)
+                        if rr.returncode != 0:
+                            os.remove(dst)
                     except Exception:
                         pass
             detail = [l for l in p.stdout.splitlines() if l.startswith("  [")]
